@@ -1,5 +1,6 @@
 import SemVerif.Spec.Denote
 import SemVerif.Lemmas.T1Stmt
+import SemVerif.Lemmas.ValInv
 /-!
 # Lemmas/T2Expr — the denotation of the emitted stack is the denotation of the source (family T2),
 expression level
@@ -351,10 +352,12 @@ structure Trans (g : Globals) (s s' : St) (evs : List DStmt) : Prop where
   tstable : ∀ q, q ≤ s.curReg → s'.tenv.reg q = s.tenv.reg q
   tdecls : s'.tenv.decls = s.tenv.decls
   tok : ∀ R, TOK g R s → TOK g R s'
+  /-- nothing is declared below statement level (C18, value tables) -/
+  dts : s'.dts = s.dts
 
 theorem Trans.refl {g : Globals} (s : St) : Trans g s s [] :=
   ⟨by simp, rfl, fun _ _ => rfl, Nat.le_refl _, rfl, fun _ => rfl, rfl, fun _ h => h, fun h => h,
-   fun _ _ => rfl, rfl, fun _ h => h⟩
+   fun _ _ => rfl, rfl, fun _ h => h, rfl⟩
 
 theorem Trans.trans {g : Globals} {a b c : St} {e1 e2 : List DStmt} (h1 : Trans g a b e1) (h2 : Trans g b c e2) : Trans g a c (e1 ++ e2) :=
   ⟨by rw [h2.out, h1.out, List.append_assoc], by rw [h2.decls, h1.decls],
@@ -362,21 +365,24 @@ theorem Trans.trans {g : Globals} {a b c : St} {e1 e2 : List DStmt} (h1 : Trans 
    Nat.le_trans h1.mono h2.mono, by rw [h2.vals, h1.vals], fun n => by rw [h2.inner, h1.inner],
    by rw [h2.rootNames, h1.rootNames], fun q h => h2.bnd q (h1.bnd q h), fun h => h2.rd (h1.rd h),
    fun q hq => by rw [h2.tstable q (Nat.le_trans hq h1.mono), h1.tstable q hq],
-   by rw [h2.tdecls, h1.tdecls], fun R h => h2.tok R (h1.tok R h)⟩
+   by rw [h2.tdecls, h1.tdecls], fun R h => h2.tok R (h1.tok R h), by rw [h2.dts, h1.dts]⟩
 
 theorem Held.of_trans {g : Globals} {s s' : St} {evs : List DStmt} {x : ExprResult} (h : Held s x) (t : Trans g s s' evs) : Held s' x :=
   h.mono t.mono t.bnd t.tstable
 
 theorem trans_addErr {g : Globals} (k : ErrKind) (v : Name) (l o : Nat) (s : St) : Trans g s (s.addErr k v l o) [] :=
   ⟨by simp [abs_addErr], rfl, fun _ _ => rfl, Nat.le_refl _, rfl, fun _ => rfl, rfl, fun _ h => h,
-   fun h => rd_addErr h k v l o, fun _ _ => rfl, rfl, fun _ h => h⟩
+   fun h => rd_addErr h k v l o, fun _ _ => rfl, rfl, fun _ h => h, rfl⟩
 
 theorem trans_incReg {g : Globals} (s : St) : Trans g s s.incReg [] :=
   ⟨by simp [abs_incReg], by rw [abs_incReg], fun _ _ => by rw [abs_incReg], by rw [curReg_incReg]; omega,
    vals_incReg s, innerUsed_incReg s, rfl, fun q h => by rw [abs_incReg]; exact h, rd_incReg,
-   fun _ _ => by rw [tenv_incReg], by rw [tenv_incReg], fun _ h => tok_of_ctx rfl h⟩
+   fun _ _ => by rw [tenv_incReg], by rw [tenv_incReg], fun _ h => tok_of_ctx rfl h, dts_incReg s⟩
 
 /-- bump the counter, then push an instruction whose abstract step binds only registers above the old counter -/
+theorem declares_none_of {i : Instr} (hnd : (∀ v n, i ≠ .fnArg v n) ∧ (∀ v x, i ≠ .letBinding v x)) : i.declares = none := by
+  cases i <;> first | rfl | exact absurd rfl (hnd.1 _ _) | exact absurd rfl (hnd.2 _ _)
+
 theorem trans_incPush {g : Globals} (i : Instr) (s : St) (evs : List DStmt)
     (hout : (abstractStep s.abs i).out = s.abs.out ++ evs) (hdecls : (abstractStep s.abs i).decls = s.abs.decls)
     (hreg : ∀ q, q ≤ s.curReg → (abstractStep s.abs i).reg q = s.abs.reg q)
@@ -401,7 +407,8 @@ theorem trans_incPush {g : Globals} (i : Instr) (s : St) (evs : List DStmt)
      intro w hw'
      rw [hw w hw', curReg_incReg]; omega,
    by rw [tenv_push, tenv_incReg]; exact tenv_step_decls _ _ hnd.1 hnd.2,
-   fun R h => tok_push i (tok_of_ctx rfl h) (by rw [tenv_incReg]; exact hty R)⟩
+   fun R h => tok_push i (tok_of_ctx rfl h) (by rw [tenv_incReg]; exact hty R),
+   by rw [dts_push_plain _ _ (declares_none_of hnd), dts_incReg]⟩
 
 /-! ### Source scope against the value tables -/
 
